@@ -17,6 +17,9 @@ def scanSplit : Idx := .sub (.len scanList) (.param "num_scan_inputs")
 
 def ifSpec : CtorSpec := ⟨[("else_branch", .empty), ("then_branch", .empty)], "else_branch", 0⟩
 
+/-- the two branch subgraphs created in the other order (equally acceptable) -/
+def ifSpecSwapped : CtorSpec := ⟨[("then_branch", .empty), ("else_branch", .empty)], "else_branch", 0⟩
+
 def loopTypes (sh : Option (List Dim)) : ListExpr :=
   .append (.lit [.const (.tensor 7 sh), .const (.tensor 9 sh)])
     (.comp (.unwrapType .loopVar) ⟨"v_initial", none, none⟩)
@@ -333,6 +336,13 @@ theorem construct_if_world (env : Env) (cbs : Callbacks) (w : World) (n1 n2 : Na
     (construct ifSpec env cbs w).2
       = ⟨⟨(cbs "then_branch").1, [], []⟩ :: ⟨(cbs "else_branch").1, [], []⟩ :: w.events, w.fresh⟩ := by
   simp [construct, ifSpec, runSubgraphs, evalList, subgraphCall, h1, h2, CbBehaviour.callable,
+    CbBehaviour.result, freshIds, lookupGraph]
+
+theorem construct_if_world_swapped (env : Env) (cbs : Callbacks) (w : World) (n1 n2 : Nat)
+    (h1 : (cbs "else_branch").2 = .returnsVars n1) (h2 : (cbs "then_branch").2 = .returnsVars n2) :
+    (construct ifSpecSwapped env cbs w).2
+      = ⟨⟨(cbs "else_branch").1, [], []⟩ :: ⟨(cbs "then_branch").1, [], []⟩ :: w.events, w.fresh⟩ := by
+  simp [construct, ifSpecSwapped, runSubgraphs, evalList, subgraphCall, h1, h2, CbBehaviour.callable,
     CbBehaviour.result, freshIds, lookupGraph]
 
 theorem result_ok_iff (beh : CbBehaviour) (n : Nat) : beh.result = .ok n ↔ beh = .returnsVars n := by
